@@ -87,7 +87,7 @@ def nontrivial(case: Case, out: str) -> bool:
 
 
 def generate(rng: random.Random, tier: str):
-    n = 700 if tier == "quick" else 12000
+    n = 700 if tier == "quick" else 60000
     out = []
     for i in range(n):
         faults: list = []
